@@ -8,6 +8,8 @@
 #include "vsched.h"
 
 #include <pthread.h>
+#include <stdatomic.h>
+#include <stdbool.h>
 #include <stdio.h>
 #include <stdlib.h>
 #include <unistd.h>
@@ -15,11 +17,17 @@
 static FILE *out;
 static int K;
 static __thread int my_id;
+static int real_mode, NT;
+static _Atomic int entered[64];
+static int *lead_cnt;           /* per use: number of threads that were told they are the leader */
+static _Atomic long early_cnt;
 
 unsigned verif_batch(unsigned d) { return d; }
 void verif_hook(unsigned p, uint64_t a, uint64_t b, uint64_t c, uint64_t d)
 {
 	(void)d;
+	if(real_mode)
+		return;
 	if(p == VP_BAR_ARRIVE)
 		fprintf(out, "{\"e\":\"BarArrive\",\"thr\":%d,\"c\":%d,\"l\":%d,\"ph\":%d}\n", my_id, (int)a, (int)b, (int)c);
 	else if(p == VP_BAR_LEAVE)
@@ -34,7 +42,17 @@ static void on_hang(const char *why)
 static void *worker(void *arg)
 {
 	my_id = (int)(long)arg;
-	for(int i = 0; i < K; ++i) {
+	for(int i = 0; i < K && real_mode; ++i) {
+		/* truly concurrent threads: monitor on the observable contract only */
+		atomic_store(&entered[my_id], i + 1);
+		bool l = sync_thread_barrier();
+		for(int u = 0; u < NT; ++u)
+			if(atomic_load(&entered[u]) < i + 1)
+				atomic_fetch_add(&early_cnt, 1);
+		if(l)
+			__atomic_fetch_add(&lead_cnt[i], 1, __ATOMIC_RELAXED);
+	}
+	for(int i = 0; i < K && !real_mode; ++i) {
 		sync_thread_barrier();
 		/* a fast thread may run ahead into the next use: leave that entirely to the scheduler */
 	}
@@ -52,14 +70,33 @@ int main(int argc, char **argv)
 	sscanf(argv[5], "%u/%u", &num, &den);
 	int policy = atoi(argv[6]);
 	global_config.n_threads = (unsigned)n;
-	fprintf(out, "{\"e\":\"Cfg\",\"n\":%d,\"k\":%d,\"seed\":%lu}\n", n, K, seed);
-	vs_set_hang_cb(on_hang);
-	vs_init(seed, num, den, 400000, policy);
+	NT = n;
+	real_mode = policy == 9;
+	fprintf(out, "{\"e\":\"Cfg\",\"n\":%d,\"k\":%d,\"seed\":%lu,\"real\":%d}\n", n, real_mode ? 1 : K, seed, real_mode);
+	if(real_mode)
+		lead_cnt = calloc((size_t)K, sizeof(int));
+	else {
+		vs_set_hang_cb(on_hang);
+		vs_init(seed, num, den, 400000, policy);
+	}
 	pthread_t th[64];
 	for(int i = 0; i < n; ++i)
 		pthread_create(&th[i], NULL, worker, (void *)(long)i);
 	for(int i = 0; i < n; ++i)
 		pthread_join(th[i], NULL);
+	if(real_mode) {
+		long bad = 0, first = -1;
+		for(int i = 0; i < K; ++i)
+			if(lead_cnt[i] != 1) {
+				++bad;
+				if(first < 0)
+					first = i;
+			}
+		fprintf(out, "{\"e\":\"RealSummary\",\"uses\":%d,\"bad_leaders\":%ld,\"first_bad\":%ld,\"first_bad_leaders\":%d,\"early\":%ld}\n", K, bad, first,
+		    first >= 0 ? lead_cnt[first] : 1, (long)early_cnt);
+		fclose(out);
+		return 0;
+	}
 	fprintf(out, "{\"e\":\"End\"}\n");
 	fclose(out);
 	return 0;
